@@ -243,6 +243,43 @@ func c11R1(c *Ctx) {
 			continue
 		}
 		c.Check(s.RHS != nil && exprString(s.RHS) == "metav1.Now()", "C11.R1", "PodLastSeen set to the current time in "+s.Fn.Name, p.Pos(s.Node), s.Fn.Key(), "= metav1.Now()", exprString2(s.Node))
+		if s.Fn.Name == "ReconcilePodENI.podENICreate" {
+			// every bind of a fixed-IP record restarts the clock: the retention time of a record whose pod
+			// came back and left again counts from the last time the controller saw the pod, not the first
+			var scope *ast.BlockStmt
+			phaseF := p.Field(apiPkg, "PodENIStatus", "Phase")
+			bindC := p.LookupObj(apiPkg, "ENIPhaseBind")
+			for _, ps := range p.StoresTo([]*FuncInfo{s.Fn}, phaseF) {
+				if ps.RHS == nil || identObjSel(s.Fn.Info(), ps.RHS) != bindC {
+					continue
+				}
+				// the statements from the phase store to the end of its list (block or case body)
+				for _, k := range pathTo(s.Fn.Decl.Body, ps.Node) {
+					var list []ast.Stmt
+					switch b := k.(type) {
+					case *ast.BlockStmt:
+						list = b.List
+					case *ast.CaseClause:
+						list = b.Body
+					}
+					for i, st := range list {
+						if st.Pos() <= ps.Node.Pos() && ps.Node.End() <= st.End() && list[len(list)-1].End() >= s.Node.End() {
+							scope = &ast.BlockStmt{Lbrace: st.Pos() - 1, List: list[i:], Rbrace: list[len(list)-1].End()}
+						}
+					}
+				}
+			}
+			key := "podENICreate: every bind of a fixed-IP record stamps PodLastSeen"
+			if sel, ok := s.LHS.(*ast.SelectorExpr); ok && scope != nil {
+				if st, ok := sel.X.(*ast.SelectorExpr); ok {
+					c.RequireReached("C11.R1", key, s.Fn, scope, s.Node, exprString(st.X)+".Spec.HaveFixedIP()", nil)
+				} else {
+					c.Undec("C11.R1", key, p.Pos(s.Node), s.Fn.Key(), "<record>.Status.PodLastSeen = …", "store shape not recognised")
+				}
+			} else {
+				c.Undec("C11.R1", key, p.Pos(s.Node), s.Fn.Key(), "<record>.Status.Phase = Bind and the PodLastSeen stamp in one block", "not recognised")
+			}
+		}
 		if s.Fn == fn {
 			p.Func(podENICtlPkg, "ReconcilePodENI.podRequirePodENI") // anchor: the requirement names the predicate
 			if errName, pred := podGetAndPredicate(p, fn); pred != "" {
